@@ -60,6 +60,10 @@ static void dump_offsets(void)
     OFF(ABTI_waitlist, futex);
     OFF(ABTI_sched, request);
     OFF(ABTI_xstream, state);
+    OFF(ABTI_xstream, ctx);
+    OFF(ABTD_xstream_context, state);
+    OFF(ABTD_xstream_context, state_lock);
+    OFF(ABTD_xstream_context, state_cond);
 }
 
 /* C02 monitor: a context-switch callback republishes the unit that switched away (push to a pool, BLOCKED store,
